@@ -151,6 +151,8 @@ var stressWitnesses = func() []witness {
 	ws = append(ws, witness{"squery", "n", "g1.v1.Tree", "children.9223372036854775807.value=a"})
 	dec("g0.v1.All", `{"sDec":1e2147483647}`)
 	dec("g0.v1.All", `{"sDec":"1E2147483647"}`)
+	// known finding c06-crash:stack-exhaustion-deep-nesting (open): compact `deep` op, run in a child process (deepchild.go); LAST line
+	ws = append(ws, witness{"sdeep", "n", "g1.v1.Tree", "left 800000"})
 	return ws
 }()
 
@@ -161,6 +163,10 @@ func (im *impl) genCorpus(h *vh.H, i int) string {
 	if i >= len(witnesses) {
 		w := stressWitnesses[i-len(witnesses)]
 		w.kind = w.kind[1:]
+		if w.kind == "deep" {
+			member, depth, _ := strings.Cut(w.arg, " ")
+			return "deep " + w.mode + " " + w.root + " " + vh.Hex([]byte(member)) + " " + depth + " (meta stress)"
+		}
 		return im.witnessLine(w, "(env)") + " (meta stress)"
 	}
 	w := witnesses[i]
